@@ -4,6 +4,7 @@ package c08
 import (
 	"encoding/json"
 	"fmt"
+	"math"
 	"reflect"
 	"regexp"
 	"strings"
@@ -14,6 +15,7 @@ import (
 	"verif/internal/vk"
 
 	plush "github.com/gobuffalo/plush/v5"
+	"github.com/gobuffalo/plush/v5/helpers/hctx"
 	"pgregory.net/rapid"
 )
 
@@ -31,9 +33,55 @@ func (c *countIter) Next() interface{} {
 	return c.i * 10
 }
 
+// valIter has a VALUE receiver: it is an Iterator without being a pointer.
+type valIter struct{ st *countIter }
+
+func (v valIter) Next() interface{} { return v.st.Next() }
+
+// funcIter is an Iterator whose kind is Func.
+type funcIter func() interface{}
+
+func (f funcIter) Next() interface{} { return f() }
+
+// zeroIter yields zero values (0 at every even position): only nil ends an iterator.
+type zeroIter struct{ i, n int }
+
+func (z *zeroIter) Next() interface{} {
+	if z.i >= z.n {
+		return nil
+	}
+	z.i++
+	if z.i%2 == 1 {
+		return 0
+	}
+	return z.i * 10
+}
+
 type opaque struct{ A int }
 
-// iterable kinds: how `xs` is bound on both sides. elem/key family: "int" or "string".
+// holder gives the iterable to the template as a field, through a method, and through a pointer.
+type holder struct {
+	Items interface{}
+	Nil   interface{}
+	Deep  map[string]interface{}
+}
+
+func (h holder) List() interface{}   { return h.Items }
+func (h *holder) PList() interface{} { return h.Items }
+
+type (
+	namedSlice []int
+	namedMap   map[string]int
+)
+
+// wrapCtx is a context that is not a *plush.Context (Render and Exec take any hctx.Context).
+type wrapCtx struct{ *plush.Context }
+
+func (w wrapCtx) New() hctx.Context { return wrapCtx{w.Context.New().(*plush.Context)} }
+
+// iterable kinds: how `xs` is bound on both sides. elem: "int", "string", "bool" (the bodies may read and compare the
+// value), "opaque" (the bodies never read it), "slice" / "mixed" (the value is itself iterable: inner loops range over it).
+// key: "int", "string", "bool" or "other" (emitted, never compared).
 type iterKind struct {
 	name      string
 	elem, key string
@@ -43,6 +91,18 @@ type iterKind struct {
 	hasNil    bool // some elements are nil
 	build     func(n int) (modelVal, plushVal interface{})
 	expr      func(n int) model.Expr // nil: the iterable is the variable xs
+	keyBase   int                    // maps with int keys: key of the first entry
+	byValue   bool                   // maps whose keys cannot be printed: the marker of an iteration is its VALUE
+	maxN      int                    // >0: the kind has at most that many elements
+	// spell: how the loop head names the iterable instead of `xs` (a field, a method call, an index expression, a Go
+	// function); bind puts the plush value where that spelling finds it
+	spell     string
+	spellFrom string // what the printed head says instead ("" = xs)
+	bind      func(pv interface{}, data map[string]interface{})
+}
+
+func (ik iterKind) readable() bool {
+	return ik.elem == "int" || ik.elem == "string" || ik.elem == "bool"
 }
 
 func ints(n int) []interface{} {
@@ -109,7 +169,7 @@ var iterKinds = []iterKind{
 		}
 		return om, m
 	}},
-	{name: "map[int]string", elem: "string", key: "int", isMap: true, build: func(n int) (interface{}, interface{}) {
+	{name: "map[int]string", elem: "string", key: "int", isMap: true, keyBase: 100, build: func(n int) (interface{}, interface{}) {
 		om := &model.OrderedMap{Vals: map[interface{}]interface{}{}}
 		m := map[int]string{}
 		for i := 0; i < n; i++ {
@@ -179,6 +239,225 @@ var iterKinds = []iterKind{
 	{name: "bool (non-iterable)", elem: "int", key: "int", bad: true, build: func(n int) (interface{}, interface{}) { return true, true }},
 	{name: "struct (non-iterable)", elem: "int", key: "int", bad: true, build: func(n int) (interface{}, interface{}) { return opaque{1}, opaque{1} }},
 	{name: "float (non-iterable)", elem: "int", key: "int", bad: true, build: func(n int) (interface{}, interface{}) { return 1.5, 1.5 }},
+
+	// ---- appended by the widening round (indexes above stay stable for stored replays) ----
+	// zero values are elements like any other
+	{name: "[]int holding zeros", elem: "int", key: "int", build: func(n int) (interface{}, interface{}) { return zints(n), toInts(zints(n)) }},
+	{name: "[]string holding empty strings", elem: "string", key: "int", build: func(n int) (interface{}, interface{}) { return zstrs(n), toStrs(zstrs(n)) }},
+	{name: "[]bool", elem: "bool", key: "int", build: func(n int) (interface{}, interface{}) {
+		m, p := make([]interface{}, n), make([]bool, n)
+		for i := range m {
+			m[i], p[i] = i%2 == 1, i%2 == 1
+		}
+		return m, p
+	}},
+	{name: "map[int]int from key 0 holding zeros", elem: "int", key: "int", isMap: true, build: func(n int) (interface{}, interface{}) {
+		om := &model.OrderedMap{Vals: map[interface{}]interface{}{}}
+		m := map[int]int{}
+		for i, v := range zints(n) {
+			om.Keys = append(om.Keys, i)
+			om.Vals[i], m[i] = v, v.(int)
+		}
+		return om, m
+	}},
+	{name: "map[bool]string", elem: "string", key: "bool", isMap: true, maxN: 2, build: func(n int) (interface{}, interface{}) {
+		om := &model.OrderedMap{Vals: map[interface{}]interface{}{}}
+		m := map[bool]string{}
+		for i := 0; i < n && i < 2; i++ {
+			om.Keys = append(om.Keys, i == 1)
+			om.Vals[i == 1], m[i == 1] = fmt.Sprintf("s%d", i), fmt.Sprintf("s%d", i)
+		}
+		return om, m
+	}},
+	{name: "map[uint8]string", elem: "string", key: "other", isMap: true, build: func(n int) (interface{}, interface{}) {
+		om := &model.OrderedMap{Vals: map[interface{}]interface{}{}}
+		m := map[uint8]string{}
+		for i := 0; i < n; i++ {
+			om.Keys = append(om.Keys, i+200)
+			om.Vals[i+200], m[uint8(i+200)] = fmt.Sprintf("s%d", i), fmt.Sprintf("s%d", i)
+		}
+		return om, m
+	}},
+	// named types and pointers
+	{name: "named []int", elem: "int", key: "int", build: func(n int) (interface{}, interface{}) { return ints(n), namedSlice(toInts(ints(n))) }},
+	{name: "named map[string]int", elem: "int", key: "string", isMap: true, build: func(n int) (interface{}, interface{}) {
+		om, m := strIntMap(n)
+		return om, namedMap(m)
+	}},
+	{name: "*map[string]int", elem: "int", key: "string", isMap: true, build: func(n int) (interface{}, interface{}) {
+		om, m := strIntMap(n)
+		return om, &m
+	}},
+	{name: "*[]interface{}", elem: "int", key: "int", build: func(n int) (interface{}, interface{}) { s := ints(n); return ints(n), &s }},
+	// elements the bodies never read: typed nil pointers, structs, errors, bytes
+	{name: "[]*struct with nil pointers", elem: "opaque", key: "int", build: func(n int) (interface{}, interface{}) {
+		p := make([]*opaque, n)
+		for i := range p {
+			if i%2 == 0 {
+				p[i] = &opaque{i}
+			}
+		}
+		return strs(n), p
+	}},
+	{name: "[]struct", elem: "opaque", key: "int", build: func(n int) (interface{}, interface{}) { return strs(n), make([]opaque, n) }},
+	{name: "[]error", elem: "opaque", key: "int", build: func(n int) (interface{}, interface{}) {
+		p := make([]error, n)
+		for i := range p {
+			if i%2 == 1 {
+				p[i] = fmt.Errorf("e%d", i)
+			}
+		}
+		return strs(n), p
+	}},
+	{name: "[]byte", elem: "opaque", key: "int", build: func(n int) (interface{}, interface{}) { return strs(n), make([]byte, n) }},
+	// elements that are themselves iterable: inner loops range over the outer loop's variable
+	{name: "[][]int of lengths 0..3", elem: "slice", key: "int", build: func(n int) (interface{}, interface{}) {
+		m, p := make([]interface{}, n), make([][]int, n)
+		for i := range m {
+			m[i], p[i] = ints(i%4), toInts(ints(i%4))
+		}
+		return m, p
+	}},
+	{name: "[]interface{} of slice, map, Iterator, array, empty slice", elem: "mixed", key: "int", build: func(n int) (interface{}, interface{}) {
+		m, p := make([]interface{}, n), make([]interface{}, n)
+		for i := range m {
+			switch i % 5 {
+			case 0:
+				m[i], p[i] = ints(2), toInts(ints(2))
+			case 1:
+				m[i], p[i] = &model.OrderedMap{Keys: []interface{}{"k0"}, Vals: map[interface{}]interface{}{"k0": 10}}, map[string]int{"k0": 10}
+			case 2:
+				m[i], p[i] = &countIter{n: 3}, &countIter{n: 3}
+			case 3:
+				m[i], p[i] = ints(2), [2]int{10, 20}
+			case 4:
+				m[i], p[i] = ints(0), []string{}
+			}
+		}
+		return m, p
+	}},
+	// the loop head names the iterable by something else than a plain variable
+	{name: "struct field h.Items", elem: "int", key: "int", spell: "h.Items", build: func(n int) (interface{}, interface{}) { return ints(n), toInts(ints(n)) },
+		bind: func(pv interface{}, d map[string]interface{}) { d["h"] = holder{Items: pv} }},
+	{name: "field through a pointer hp.Items", elem: "string", key: "int", spell: "hp.Items", build: func(n int) (interface{}, interface{}) { return strs(n), toStrs(strs(n)) },
+		bind: func(pv interface{}, d map[string]interface{}) { d["hp"] = &holder{Items: pv} }},
+	{name: "method call h.List()", elem: "int", key: "int", spell: "h.List()", build: func(n int) (interface{}, interface{}) { return ints(n), toInts(ints(n)) },
+		bind: func(pv interface{}, d map[string]interface{}) { d["h"] = holder{Items: pv} }},
+	{name: "pointer method call hp.PList() on a map", elem: "int", key: "string", isMap: true, spell: "hp.PList()", build: func(n int) (interface{}, interface{}) {
+		om, m := strIntMap(n)
+		return om, m
+	}, bind: func(pv interface{}, d map[string]interface{}) { d["hp"] = &holder{Items: pv} }},
+	{name: "map index ms[\"a\"]", elem: "int", key: "int", spell: `ms["a"]`, build: func(n int) (interface{}, interface{}) { return ints(n), toInts(ints(n)) },
+		bind: func(pv interface{}, d map[string]interface{}) {
+			d["ms"] = map[string]interface{}{"a": pv, "b": []int{1}}
+		}},
+	{name: "slice index nn[1]", elem: "string", key: "int", spell: "nn[1]", build: func(n int) (interface{}, interface{}) { return strs(n), toStrs(strs(n)) },
+		bind: func(pv interface{}, d map[string]interface{}) { d["nn"] = []interface{}{[]int{1}, pv} }},
+	{name: "field of an indexed field h.Deep[\"a\"]", elem: "int", key: "int", spell: `h.Deep["a"]`, build: func(n int) (interface{}, interface{}) { return ints(n), toInts(ints(n)) },
+		bind: func(pv interface{}, d map[string]interface{}) { d["h"] = holder{Deep: map[string]interface{}{"a": pv}} }},
+	{name: "Go function mk()", elem: "int", key: "int", spell: "mk()", build: func(n int) (interface{}, interface{}) { return ints(n), toInts(ints(n)) },
+		bind: func(pv interface{}, d map[string]interface{}) { d["mk"] = func() interface{} { return pv } }},
+	{name: "Go function with arguments mk2(1, \"a\") returning an Iterator", elem: "int", key: "int", spell: `mk2(1, "a")`, build: func(n int) (interface{}, interface{}) { return &countIter{n: n}, &countIter{n: n} },
+		bind: func(pv interface{}, d map[string]interface{}) { d["mk2"] = func(int, string) interface{} { return pv } }},
+	{name: "parenthesised (xs)", elem: "int", key: "int", spell: "(xs)", build: func(n int) (interface{}, interface{}) { return ints(n), toInts(ints(n)) },
+		bind: func(pv interface{}, d map[string]interface{}) { d["xs"] = pv }},
+	{name: "hash literal", elem: "int", key: "string", isMap: true, expr: func(n int) model.Expr {
+		var kvs []model.KV
+		for i, v := range ints(n) {
+			kvs = append(kvs, model.KV{K: fmt.Sprintf("k%d", i), V: model.Lit{V: v}})
+		}
+		return model.Hash{KVs: kvs}
+	}},
+	// more iterators
+	{name: "Iterator with a value receiver", elem: "int", key: "int", build: func(n int) (interface{}, interface{}) {
+		return valIter{&countIter{n: n}}, valIter{&countIter{n: n}}
+	}},
+	{name: "pointer to a value-receiver Iterator", elem: "int", key: "int", build: func(n int) (interface{}, interface{}) {
+		return &valIter{&countIter{n: n}}, &valIter{&countIter{n: n}}
+	}},
+	{name: "Iterator of kind func", elem: "int", key: "int", build: func(n int) (interface{}, interface{}) {
+		a, b := &countIter{n: n}, &countIter{n: n}
+		return funcIter(a.Next), funcIter(b.Next)
+	}},
+	{name: "Iterator yielding zeros", elem: "int", key: "int", build: func(n int) (interface{}, interface{}) { return &zeroIter{n: n}, &zeroIter{n: n} }},
+	// maps whose keys are not printable: the bodies never read the key, iterations are told apart by their values
+	{name: "map[[2]int]string", elem: "string", key: "opaque", isMap: true, byValue: true, build: func(n int) (interface{}, interface{}) {
+		m := map[[2]int]string{}
+		return opaqueKeyMap(n, func(i int, v string) { m[[2]int{i, i + 1}] = v }), m
+	}},
+	{name: "map[struct]string", elem: "string", key: "opaque", isMap: true, byValue: true, build: func(n int) (interface{}, interface{}) {
+		m := map[opaque]string{}
+		return opaqueKeyMap(n, func(i int, v string) { m[opaque{i}] = v }), m
+	}},
+	{name: "map[*int]string", elem: "string", key: "opaque", isMap: true, byValue: true, build: func(n int) (interface{}, interface{}) {
+		m := map[*int]string{}
+		return opaqueKeyMap(n, func(i int, v string) { m[new(int)] = v }), m
+	}},
+	{name: "map[interface{}]string with keys 1, \"1\", 1.0, true, int64(1), [1]int{1}", elem: "string", key: "opaque", isMap: true, byValue: true, maxN: 6, build: func(n int) (interface{}, interface{}) {
+		keys := []interface{}{1, "1", 1.0, true, int64(1), [1]int{1}}
+		m := map[interface{}]string{}
+		return opaqueKeyMap(n, func(i int, v string) { m[keys[i]] = v }), m
+	}},
+	{name: "map[float64]string with keys 0, 0.5, +Inf, -Inf, NaN, NaN", elem: "string", key: "opaque", isMap: true, byValue: true, maxN: 6, build: func(n int) (interface{}, interface{}) {
+		keys := []float64{0, 0.5, math.Inf(1), math.Inf(-1), math.NaN(), math.NaN()}
+		m := map[float64]string{}
+		return opaqueKeyMap(n, func(i int, v string) { m[keys[i]] = v }), m
+	}},
+	// more nil-like and non-iterable values
+	{name: "nil slice", elem: "int", key: "int", empty: true, build: func(n int) (interface{}, interface{}) { return ints(0), []int(nil) }},
+	{name: "nil map", elem: "int", key: "int", empty: true, build: func(n int) (interface{}, interface{}) {
+		return &model.OrderedMap{Vals: map[interface{}]interface{}{}}, map[string]int(nil)
+	}},
+	{name: "nil interface field h.Nil", elem: "int", key: "int", empty: true, expr: func(n int) model.Expr { return model.Lit{V: nil} }, spell: "h.Nil", spellFrom: "nil",
+		bind: func(pv interface{}, d map[string]interface{}) { d["h"] = holder{} }},
+	{name: "chan (non-iterable)", elem: "int", key: "int", bad: true, build: func(n int) (interface{}, interface{}) { return 5, make(chan int) }},
+	{name: "func value (non-iterable)", elem: "int", key: "int", bad: true, build: func(n int) (interface{}, interface{}) { return 5, func() int { return 1 } }},
+	{name: "*struct (non-iterable)", elem: "int", key: "int", bad: true, build: func(n int) (interface{}, interface{}) { return 5, &opaque{1} }},
+	{name: "int64 (non-iterable)", elem: "int", key: "int", bad: true, build: func(n int) (interface{}, interface{}) { return 5, int64(5) }},
+	{name: "uint8 (non-iterable)", elem: "int", key: "int", bad: true, build: func(n int) (interface{}, interface{}) { return 5, uint8(5) }},
+}
+
+func zints(n int) []interface{} {
+	out := ints(n)
+	for i := range out {
+		if i%2 == 0 {
+			out[i] = 0
+		}
+	}
+	return out
+}
+
+func zstrs(n int) []interface{} {
+	out := strs(n)
+	for i := range out {
+		if i%2 == 0 {
+			out[i] = ""
+		}
+	}
+	return out
+}
+
+// opaqueKeyMap is the model side of a map whose keys the bodies never read: keys K0.., values s0..
+func opaqueKeyMap(n int, put func(i int, v string)) *model.OrderedMap {
+	om := &model.OrderedMap{Vals: map[interface{}]interface{}{}}
+	for i := 0; i < n; i++ {
+		k, v := fmt.Sprintf("K%d", i), fmt.Sprintf("s%d", i)
+		om.Keys = append(om.Keys, k)
+		om.Vals[k] = v
+		put(i, v)
+	}
+	return om
+}
+
+func strIntMap(n int) (*model.OrderedMap, map[string]int) {
+	om := &model.OrderedMap{Vals: map[interface{}]interface{}{}}
+	m := map[string]int{}
+	for i := 0; i < n; i++ {
+		k := fmt.Sprintf("k%d", i)
+		om.Keys = append(om.Keys, k)
+		om.Vals[k], m[k] = (i+1)*10, (i+1)*10
+	}
+	return om, m
 }
 
 // model-side counterparts of the built-in iterator helpers
@@ -204,34 +483,138 @@ var shared = map[string]model.Helper{
 
 // ---- cases ------------------------------------------------------------------------
 
+// KN is one further execution of the same parsed template: xs bound to another iterable.
+type KN struct {
+	Kind int `json:"iterable"`
+	N    int `json:"n"`
+}
+
 type Case struct {
-	Kind int             `json:"iterable"` // index into iterKinds
-	N    int             `json:"n"`
-	Src  string          `json:"src"` // informational
-	Prog json.RawMessage `json:"prog"`
+	Kind    int             `json:"iterable"` // index into iterKinds
+	N       int             `json:"n"`
+	Src     string          `json:"src"` // informational
+	Prog    json.RawMessage `json:"prog"`
+	Compact bool            `json:"compact,omitempty"` // blocks of silent statements printed inside one tag
+	Head    int             `json:"head,omitempty"`    // spelling of the loop heads, see source
+	Ctx     string          `json:"ctx,omitempty"`     // "wrapped": the context is not a *plush.Context
+	Then    []KN            `json:"then,omitempty"`    // the template is parsed once and executed again with these
+	Names   int             `json:"names,omitempty"`   // >0: the variables are spelled as nameSets[Names-1] says (plush side only)
+	Shape   int             `json:"shape,omitempty"`   // >0: the program is deepShapes[Shape-1](Depth) and is not stored
+	Depth   int             `json:"depth,omitempty"`
 }
 
 var marker = regexp.MustCompile(`\{\{([a-z0-9]+)\}\}`)
 
-func run(r *vk.Run, kind, n int, prog []model.Node) *vk.Fail {
-	ik := iterKinds[kind]
-	src := model.Printer{}.Nodes(prog)
-	c := Case{Kind: kind, N: n, Src: src, Prog: model.Encode(prog)}
+// nameSets: other legal spellings of the five variable names every program uses. Keywords are case-sensitive whole
+// words; letters, digits, _ and - make up an identifier.
+var nameSets = []map[string]string{
+	{"xs": "infos", "ys": "breaks", "v": "fortune", "k": "index", "w": "input"},      // keywords as prefixes
+	{"xs": "For", "ys": "Break", "v": "In", "k": "Continue", "w": "If"},              // keywords but for the capital
+	{"xs": "x-s", "ys": "for-each", "v": "in-v", "k": "break-k", "w": "continue-w"},  // keywords before a dash
+	{"xs": "xs_2", "ys": "_ys", "v": "_v", "k": "k_", "w": "w2w"},                    // underscores and digits
+	{"xs": "letters", "ys": "returns", "v": "elsewhere", "k": "iffy", "w": "truely"}, // more keyword prefixes
+	{"xs": "fn_", "ys": "func1", "v": "nil_", "k": "falsey", "w": "trueish"},         // literals as prefixes
+}
+
+var plainName = regexp.MustCompile(`\b(xs|ys|v|k|w)\b`)
+
+// source prints the program the way the case asks for.
+func source(c Case, prog []model.Node) string {
+	src := model.Printer{Compact: c.Compact}.Nodes(prog)
+	if ik := iterKinds[c.Kind]; ik.spell != "" {
+		from := ik.spellFrom
+		if from == "" {
+			from = "xs"
+		}
+		src = strings.ReplaceAll(src, " in "+from+" {", " in "+ik.spell+" {")
+	}
+	switch c.Head {
+	case 1: // nothing between the tokens of the head
+		src = strings.ReplaceAll(strings.ReplaceAll(src, "for (", "for("), ") in ", ")in ")
+	case 2: // blanks inside the parentheses
+		src = strings.ReplaceAll(strings.ReplaceAll(strings.ReplaceAll(src, "for (", "for ( "), ") in ", " ) in "), ", ", " , ")
+	case 3: // the head over several lines
+		src = strings.ReplaceAll(src, ") in ", ")\n in\n ")
+	case 4: // the variables on lines of their own
+		src = strings.ReplaceAll(strings.ReplaceAll(strings.ReplaceAll(src, "for (", "for (\n"), ") in ", "\n) in "), ", ", ",\n")
+	}
+	if c.Names > 0 {
+		set := nameSets[c.Names-1]
+		src = plainName.ReplaceAllStringFunc(src, func(n string) string { return set[n] })
+	}
+	return src
+}
+
+func run(r *vk.Run, c Case, prog []model.Node) *vk.Fail {
+	src := source(c, prog)
+	if c.Shape == 0 {
+		c.Src, c.Prog = src, model.Encode(prog)
+	}
 	defer r.Watch("loop", c)()
+	if len(c.Then) == 0 {
+		return one(r, c, c.Kind, c.N, 0, prog, src, func(ctx hctx.Context) (string, error) { return plush.Render(src, ctx) })
+	}
+	// parsed once, executed several times: nothing learnt in one execution may change the next
+	t, perr := plush.NewTemplate(src)
+	exec := func(ctx hctx.Context) (string, error) {
+		if perr != nil {
+			return "", perr
+		}
+		return t.Exec(ctx)
+	}
+	for i, kn := range append([]KN{{c.Kind, c.N}}, c.Then...) {
+		if f := one(r, c, kn.Kind, kn.N, i, prog, src, exec); f != nil {
+			return f
+		}
+	}
+	return nil
+}
+
+// one executes the template once with xs bound to the iterable (kind, n) and compares with the reference.
+func one(r *vk.Run, c Case, kind, n, step int, prog []model.Node, src string, exec func(hctx.Context) (string, error)) *vk.Fail {
+	ik := iterKinds[kind]
 	fail := func(f string, a ...interface{}) *vk.Fail {
-		return &vk.Fail{Kind: "loop", Case: c, Msg: fmt.Sprintf("iterable %s (n=%d): %s: ", ik.name, n, src) + fmt.Sprintf(f, a...)}
+		where := ""
+		if len(c.Then) > 0 {
+			where = fmt.Sprintf("execution %d of one parsed template, ", step+1)
+		}
+		if c.Ctx != "" {
+			where += "context " + c.Ctx + ", "
+		}
+		show := src
+		if len(show) > 700 {
+			show = fmt.Sprintf("%s ...(%d bytes, nesting depth %d)... %s", show[:300], len(src), c.Depth, show[len(show)-200:])
+		}
+		return &vk.Fail{Kind: "loop", Case: c, Msg: fmt.Sprintf("%siterable %s (n=%d): %s: ", where, ik.name, n, show) + fmt.Sprintf(f, a...)}
 	}
 	// v, k and w are ALSO top-level variables: a loop variable hides them, also while it is bound to nil
 	mdata := map[string]interface{}{"ys": []interface{}{1, 2}, "v": "outer-v", "k": "outer-k", "w": "outer-w"}
 	pdata := map[string]interface{}{"ys": []interface{}{1, 2}, "v": "outer-v", "k": "outer-k", "w": "outer-w"}
+	var pv interface{}
 	if ik.build != nil {
 		mv, _ := ik.build(n)
-		_, pv := ik.build(n)
+		_, pv = ik.build(n)
 		mdata["xs"] = mv
-		pdata["xs"] = pv
+		if ik.bind == nil {
+			pdata["xs"] = pv
+		}
 	}
-	ctx := model.Context(pdata, shared)
-	res := vk.Safe(func() (string, error) { return plush.Render(src, ctx) })
+	if ik.bind != nil {
+		ik.bind(pv, pdata)
+	}
+	if c.Names > 0 {
+		for from, to := range nameSets[c.Names-1] {
+			if val, ok := pdata[from]; ok {
+				delete(pdata, from)
+				pdata[to] = val
+			}
+		}
+	}
+	var ctx hctx.Context = model.Context(pdata, shared)
+	if c.Ctx == "wrapped" {
+		ctx = wrapCtx{ctx.(*plush.Context)}
+	}
+	res := vk.Safe(func() (string, error) { return exec(ctx) })
 	if res.Panicked() {
 		return fail("%s", res)
 	}
@@ -243,13 +626,28 @@ func run(r *vk.Run, kind, n int, prog []model.Node) *vk.Fail {
 	}
 	if ik.isMap && res.Err == nil {
 		// read the visiting order off the output and run the model in that order
-		om := mdata["xs"].(*model.OrderedMap)
+		om, ok := mdata["xs"].(*model.OrderedMap)
+		if !ok { // a hash literal: the model builds the map itself, in the order written; one entry has one order
+			if n > 1 {
+				panic("c08: literal maps must have at most one entry")
+			}
+			om = &model.OrderedMap{}
+		}
 		seen := map[string]bool{}
 		var order []interface{}
+		tag := func(k interface{}) string {
+			if ik.byValue {
+				return fmt.Sprint(om.Vals[k])
+			}
+			return fmt.Sprint(k)
+		}
 		for _, m := range marker.FindAllStringSubmatch(res.Out, -1) {
+			if !ok {
+				break
+			}
 			var key interface{}
 			for _, k := range om.Keys {
-				if fmt.Sprint(k) == m[1] {
+				if tag(k) == m[1] {
 					key = k
 				}
 			}
@@ -263,7 +661,7 @@ func run(r *vk.Run, kind, n int, prog []model.Node) *vk.Fail {
 			order = append(order, key)
 		}
 		for _, k := range om.Keys {
-			if !seen[fmt.Sprint(k)] {
+			if !seen[tag(k)] {
 				order = append(order, k)
 			}
 		}
@@ -282,8 +680,9 @@ func run(r *vk.Run, kind, n int, prog []model.Node) *vk.Fail {
 		return nil
 	}
 	nt := ""
-	if strings.Contains(src, "break") || strings.Contains(src, "continue") || strings.Count(src, "for (") > 1 || ik.isMap || ik.bad || ik.empty || strings.Contains(ik.name, "*") || strings.Contains(ik.name, "Iterator") {
-		nt = fmt.Sprintf("%d|%d|%s", kind, n, src)
+	if strings.Contains(src, "break") || strings.Contains(src, "continue") || strings.Count(src, "for") > 1 || ik.isMap || ik.bad || ik.empty ||
+		strings.Contains(ik.name, "*") || strings.Contains(ik.name, "Iterator") || kind >= firstWidened || len(c.Then) > 0 || c.Ctx != "" || c.Names > 0 {
+		nt = fmt.Sprintf("%d|%d|%s|%s|%v|%d", kind, n, src, c.Ctx, c.Then, step)
 	}
 	r.Count(nt, ik.name)
 	if nt != "" {
@@ -309,12 +708,22 @@ func run(r *vk.Run, kind, n int, prog []model.Node) *vk.Fail {
 	return nil
 }
 
+// firstWidened is the index of the first iterable kind added by the widening round.
+const firstWidened = 25
+
 // ---- body generator ---------------------------------------------------------------
 
+// frame is one enclosing loop: its variable names and what they range over.
+type frame struct {
+	k, v string
+	ik   iterKind
+}
+
 type bodyGen struct {
-	t     *rapid.T
-	label int
-	vars  int
+	t      *rapid.T
+	label  int
+	vars   int
+	frames []frame // enclosing loops, innermost last
 }
 
 func (g *bodyGen) text() model.Node {
@@ -322,38 +731,77 @@ func (g *bodyGen) text() model.Node {
 	return model.Text{S: fmt.Sprintf("[%d]", g.label)}
 }
 
-func (g *bodyGen) cond(k, v string, ik iterKind, n int) model.Expr {
+func (g *bodyGen) top() frame { return g.frames[len(g.frames)-1] }
+
+func (g *bodyGen) in(f frame, fn func() []model.Node) []model.Node {
+	g.frames = append(g.frames, f)
+	defer func() { g.frames = g.frames[:len(g.frames)-1] }()
+	return fn()
+}
+
+func keyLit(ik iterKind, idx int) (model.Expr, bool) {
+	switch ik.key {
+	case "int":
+		if ik.isMap {
+			return model.Lit{V: idx + ik.keyBase}, true
+		}
+		return model.Lit{V: idx}, true
+	case "string":
+		return model.Lit{V: fmt.Sprintf("k%d", idx)}, true
+	case "bool":
+		return model.Lit{V: idx%2 == 1}, true
+	}
+	return nil, false
+}
+
+func elemLit(ik iterKind, idx int) model.Expr {
+	switch ik.elem {
+	case "int":
+		return model.Lit{V: (idx + 1) * 10}
+	case "string":
+		return model.Lit{V: fmt.Sprintf("s%d", idx)}
+	case "bool":
+		return model.Lit{V: idx%2 == 1}
+	}
+	return nil
+}
+
+// cond is a condition on the variables of the innermost loop or, one time in four, of an enclosing one: what an
+// inner loop does then changes from one execution of that loop to the next.
+func (g *bodyGen) cond() model.Expr {
 	t := g.t
+	f := g.top()
+	if len(g.frames) > 1 && rapid.IntRange(0, 3).Draw(t, "outer") == 0 {
+		f = g.frames[rapid.IntRange(0, len(g.frames)-2).Draw(t, "frame")]
+	}
+	k, v, ik := f.k, f.v, f.ik
 	idx := rapid.IntRange(0, 4).Draw(t, "ci")
-	var ev, kv model.Expr
-	if ik.elem == "int" {
-		ev = model.Lit{V: (idx + 1) * 10}
-	} else {
-		ev = model.Lit{V: fmt.Sprintf("s%d", idx)}
-	}
-	switch {
-	case ik.isMap && ik.key == "string":
-		kv = model.Lit{V: fmt.Sprintf("k%d", idx)}
-	case ik.isMap:
-		kv = model.Lit{V: idx + 100}
-	default:
-		kv = model.Lit{V: idx}
-	}
+	ev := elemLit(ik, idx)
+	kv, kok := keyLit(ik, idx)
+	kok = kok && k != ""
 	switch c := rapid.IntRange(0, 7).Draw(t, "cond"); {
 	case c == 0:
 		return model.Lit{V: true}
 	case c == 1:
 		return model.Lit{V: false}
-	case c == 2 && k != "":
+	case c == 2 && kok:
 		return model.Bin{Op: "==", L: model.Var{Name: k}, R: kv}
-	case c == 3 && k != "" && ik.key == "int":
+	case c == 3 && kok && ik.key == "int":
 		return model.Bin{Op: rapid.SampledFrom([]string{">", "<", ">=", "<="}).Draw(t, "cmp"), L: model.Var{Name: k}, R: kv}
-	case c == 4:
+	case c == 4 && ik.readable():
 		return model.Bin{Op: "!=", L: model.Var{Name: v}, R: ev}
 	case c == 5 && ik.elem == "int":
 		return model.Bin{Op: rapid.SampledFrom([]string{">", "<", ">=", "<="}).Draw(t, "cmp"), L: model.Var{Name: v}, R: ev}
+	case c == 6 && ik.elem == "bool":
+		return model.Var{Name: v}
 	}
-	return model.Bin{Op: "==", L: model.Var{Name: v}, R: ev}
+	switch {
+	case ik.readable():
+		return model.Bin{Op: "==", L: model.Var{Name: v}, R: ev}
+	case kok:
+		return model.Bin{Op: "==", L: model.Var{Name: k}, R: kv}
+	}
+	return model.Lit{V: idx%2 == 0}
 }
 
 func (g *bodyGen) ctl() model.Node {
@@ -363,30 +811,41 @@ func (g *bodyGen) ctl() model.Node {
 	return model.Code{S: model.ContinueS{}}
 }
 
-// body generates the statements of a loop body. k may be "".
-func (g *bodyGen) body(k, v string, ik iterKind, n, depth int) []model.Node {
+func (g *bodyGen) emitV() model.Node {
+	if f := g.top(); f.ik.readable() {
+		return model.Emit{X: model.Var{Name: f.v}}
+	}
+	return g.text()
+}
+
+func intLits(n int) model.Expr { return iterKinds[6].expr(n) }
+
+// body generates the statements of the body of the innermost loop of g.frames.
+func (g *bodyGen) body(depth int) []model.Node {
 	t := g.t
+	f := g.top()
+	k, v, ik := f.k, f.v, f.ik
 	var out []model.Node
 	cnt := rapid.IntRange(0, 5).Draw(t, "stmts")
 	for i := 0; i < cnt; i++ {
-		switch rapid.IntRange(0, 11).Draw(t, "stmt") {
+		switch rapid.IntRange(0, 15).Draw(t, "stmt") {
 		case 0, 1:
 			out = append(out, g.text())
 		case 2:
-			out = append(out, model.Emit{X: model.Var{Name: v}})
+			out = append(out, g.emitV())
 		case 3:
-			if k != "" {
+			if k != "" && ik.key != "opaque" {
 				out = append(out, model.Emit{X: model.Var{Name: k}})
 			} else {
 				out = append(out, g.text())
 			}
 		case 4, 5: // silent if carrying only a control statement
-			out = append(out, model.Code{S: model.IfS{If: &model.If{Cond: g.cond(k, v, ik, n), Then: []model.Node{g.ctl()}}}})
+			out = append(out, model.Code{S: model.IfS{If: &model.If{Cond: g.cond(), Then: []model.Node{g.ctl()}}}})
 		case 6, 7: // emitting if: text, then maybe a control statement, maybe an else branch
-			f := &model.If{Cond: g.cond(k, v, ik, n)}
+			f := &model.If{Cond: g.cond()}
 			f.Then = append(f.Then, g.text())
 			if rapid.Bool().Draw(t, "emitv") {
-				f.Then = append(f.Then, model.Emit{X: model.Var{Name: v}})
+				f.Then = append(f.Then, g.emitV())
 			}
 			if rapid.IntRange(0, 2).Draw(t, "ctl") > 0 {
 				f.Then = append(f.Then, g.ctl())
@@ -402,33 +861,61 @@ func (g *bodyGen) body(k, v string, ik iterKind, n, depth int) []model.Node {
 		case 8: // unconditional control statement at statement level
 			out = append(out, g.ctl())
 		case 9: // nested loop
-			if depth > 0 {
-				g.vars++
-				iv := fmt.Sprintf("w%d", g.vars)
-				ik2 := ""
-				switch rapid.IntRange(0, 5).Draw(t, "shadow") {
-				case 0: // the inner loop REUSES the outer loop's value name: afterwards the outer value must be back
-					iv = v
-				case 1:
-					if k != "" {
-						ik2 = k // ... or its key name
-					}
-				}
-				inner := iterKinds[6] // array literal of ints
-				var iter model.Expr = inner.expr(rapid.IntRange(0, 3).Draw(t, "inner_n"))
-				if rapid.Bool().Draw(t, "ys") {
-					iter = model.Var{Name: "ys"}
-				}
-				ib := g.body(ik2, iv, iterKind{elem: "int", key: "int"}, 3, depth-1)
-				out = append(out, model.EmitFor{For: &model.For{Key: ik2, Val: iv, Iter: iter, Body: ib}})
-				if iv == v || ik2 != "" { // read the outer variables again after the inner loop
-					out = append(out, model.Emit{X: model.Var{Name: v}})
-					if k != "" {
-						out = append(out, model.Emit{X: model.Var{Name: k}})
-					}
-				}
-			} else {
+			if depth <= 0 {
 				out = append(out, g.text())
+				break
+			}
+			g.vars++
+			iv := fmt.Sprintf("w%d", g.vars)
+			ik2 := ""
+			switch rapid.IntRange(0, 5).Draw(t, "shadow") {
+			case 0: // the inner loop REUSES the outer loop's value name: afterwards the outer value must be back
+				iv = v
+			case 1:
+				if k != "" {
+					ik2 = k // ... or its key name
+				}
+			case 2:
+				ik2 = fmt.Sprintf("j%d", g.vars)
+			}
+			inner := iterKind{elem: "int", key: "int"}
+			var iter model.Expr
+			switch rapid.IntRange(0, 5).Draw(t, "inner_iter") {
+			case 0:
+				iter = intLits(rapid.IntRange(0, 3).Draw(t, "inner_n"))
+			case 1:
+				iter = model.Var{Name: "ys"}
+			case 2, 3: // what the inner loop ranges over depends on the outer loop's variables
+				switch {
+				case ik.elem == "slice":
+					iter = model.Var{Name: v}
+				case ik.elem == "mixed":
+					iter, inner.key = model.Var{Name: v}, "other"
+				case k != "" && ik.key == "int" && !ik.isMap:
+					iter = model.Call{Fn: "until", Args: []model.Expr{model.Var{Name: k}}}
+				default:
+					iter = model.Call{Fn: "range", Args: []model.Expr{model.Lit{V: 1}, model.Lit{V: rapid.IntRange(0, 3).Draw(t, "inner_n")}}}
+				}
+			case 4: // an array literal that mentions the outer loop's variables
+				if ik.elem == "int" && !ik.hasNil {
+					els := []model.Expr{model.Var{Name: v}, model.Lit{V: 20}}
+					if k != "" && ik.key == "int" && !ik.isMap {
+						els = append(els, model.Var{Name: k})
+					}
+					iter = model.Arr{Els: els}
+				} else {
+					iter = intLits(2)
+				}
+			case 5:
+				iter = model.Call{Fn: "until", Args: []model.Expr{model.Lit{V: rapid.IntRange(0, 3).Draw(t, "inner_n")}}}
+			}
+			ib := g.in(frame{ik2, iv, inner}, func() []model.Node { return g.body(depth - 1) })
+			out = append(out, model.EmitFor{For: &model.For{Key: ik2, Val: iv, Iter: iter, Body: ib}})
+			if iv == v || (ik2 != "" && ik2 == k) { // read the outer variables again after the inner loop
+				out = append(out, g.emitV())
+				if k != "" && ik.key != "opaque" {
+					out = append(out, model.Emit{X: model.Var{Name: k}})
+				}
 			}
 		case 10: // a function literal defined (and used) inside the body
 			g.vars++
@@ -441,6 +928,57 @@ func (g *bodyGen) body(k, v string, ik iterKind, n, depth int) []model.Node {
 				iv := fmt.Sprintf("w%d", g.vars)
 				out = append(out, model.Code{S: model.ForS{For: &model.For{Val: iv, Iter: model.Var{Name: "ys"}, Body: []model.Node{model.Code{S: model.IfS{If: &model.If{Cond: model.Lit{V: true}, Then: []model.Node{g.ctl()}}}}}}}})
 			}
+		case 12: // an emitting if / else if / else chain; any branch may end in a control statement
+			f := &model.If{Cond: g.cond(), Then: []model.Node{g.text()}}
+			if rapid.IntRange(0, 2).Draw(t, "ctl") == 0 {
+				f.Then = append(f.Then, g.ctl())
+			}
+			for j := rapid.IntRange(1, 2).Draw(t, "elseifs"); j > 0; j-- {
+				ei := model.ElseIf{Cond: g.cond(), Then: []model.Node{g.text()}}
+				if rapid.Bool().Draw(t, "emitv") {
+					ei.Then = append(ei.Then, g.emitV())
+				}
+				if rapid.IntRange(0, 2).Draw(t, "eictl") > 0 {
+					ei.Then = append(ei.Then, g.ctl())
+				}
+				f.ElseIfs = append(f.ElseIfs, ei)
+			}
+			if rapid.Bool().Draw(t, "else") {
+				f.HasElse = true
+				f.Else = append(f.Else, g.text())
+				if rapid.IntRange(0, 2).Draw(t, "ectl") == 0 {
+					f.Else = append(f.Else, g.ctl())
+				}
+			}
+			out = append(out, model.EmitIf{If: f})
+		case 13: // a silent if / else if / else chain carrying control statements only
+			f := &model.If{Cond: g.cond(), Then: []model.Node{g.ctl()}}
+			for j := rapid.IntRange(1, 2).Draw(t, "elseifs"); j > 0; j-- {
+				f.ElseIfs = append(f.ElseIfs, model.ElseIf{Cond: g.cond(), Then: []model.Node{g.ctl()}})
+			}
+			if rapid.Bool().Draw(t, "else") {
+				f.HasElse = true
+				f.Else = []model.Node{g.ctl()}
+			}
+			out = append(out, model.Code{S: model.IfS{If: f}})
+		case 14: // a function holding a loop over its parameter, called twice with different collections
+			if depth <= 0 {
+				out = append(out, g.text())
+				break
+			}
+			g.vars++
+			fn, p, iv := fmt.Sprintf("f%d", g.vars), fmt.Sprintf("a%d", g.vars), fmt.Sprintf("q%d", g.vars)
+			ib := g.in(frame{"", iv, iterKind{elem: "int", key: "int"}}, func() []model.Node { return g.body(depth - 1) })
+			fb := []model.Node{g.text(), model.EmitFor{For: &model.For{Val: iv, Iter: model.Var{Name: p}, Body: ib}}, g.text()}
+			out = append(out, model.Code{S: model.LetS{Name: fn, X: model.FnLit{Params: []string{p}, Body: fb}}})
+			out = append(out, model.Emit{X: model.Call{Fn: fn, Args: []model.Expr{intLits(rapid.IntRange(0, 3).Draw(t, "arg_n"))}}})
+			out = append(out, model.Emit{X: model.Call{Fn: fn, Args: []model.Expr{model.Var{Name: "ys"}}}})
+		case 15: // the body rebinds a loop variable; the next iteration must bind it to the next element again
+			name := v
+			if k != "" && rapid.Bool().Draw(t, "letk") {
+				name = k
+			}
+			out = append(out, model.Code{S: model.LetS{Name: name, X: model.Lit{V: 7}}}, model.Emit{X: model.Var{Name: name}})
 		}
 	}
 	return out
@@ -452,29 +990,74 @@ func (g *bodyGen) program(kind, n int) []model.Node {
 	if ik.isMap || rapid.Bool().Draw(g.t, "twovars") {
 		k = "k"
 	}
-	body := g.body(k, v, ik, n, 2)
-	if ik.isMap {
-		body = append([]model.Node{model.Text{S: "{{"}, model.Emit{X: model.Var{Name: "k"}}, model.Text{S: "}}"}}, body...)
-	}
 	var iter model.Expr = model.Var{Name: "xs"}
 	if ik.expr != nil {
 		iter = ik.expr(n)
 	}
-	prog := []model.Node{g.text(), model.EmitFor{For: &model.For{Key: k, Val: v, Iter: iter, Body: body}}, g.text()}
-	return prog
+	loop := func() model.Node {
+		body := g.in(frame{k, v, ik}, func() []model.Node { return g.body(2) })
+		if ik.isMap {
+			body = append(markerOf(ik), body...)
+		}
+		return model.EmitFor{For: &model.For{Key: k, Val: v, Iter: iter, Body: body}}
+	}
+	form := rapid.IntRange(0, 6).Draw(g.t, "form")
+	if ik.isMap && form != 5 { // a second loop over the same map would show every key marker twice
+		form = 0
+	}
+	switch form {
+	case 3: // two loops one after the other: nothing of the first (names, a break, an exhausted iterator) may reach the second
+		return []model.Node{g.text(), loop(), g.text(), loop(), g.text()}
+	case 4: // a function holding the loop, called with xs, ys and xs again
+		if ik.build == nil || ik.spell != "" {
+			break
+		}
+		iter = model.Var{Name: "a"}
+		fb := []model.Node{g.text(), loop(), g.text()}
+		call := func(arg string) model.Node {
+			return model.Emit{X: model.Call{Fn: "f", Args: []model.Expr{model.Var{Name: arg}}}}
+		}
+		return []model.Node{model.Code{S: model.LetS{Name: "f", X: model.FnLit{Params: []string{"a"}, Body: fb}}}, call("xs"), g.text(), call("ys"), g.text(), call("xs")}
+	case 5: // the loop stands in an else-if branch
+		return []model.Node{g.text(), model.EmitIf{If: &model.If{Cond: model.Lit{V: false}, Then: []model.Node{g.text()},
+			ElseIfs: []model.ElseIf{{Cond: model.Lit{V: true}, Then: []model.Node{g.text(), loop(), g.text()}}}}}, g.text()}
+	case 6: // the same collection ranged over by a loop and by a loop inside it
+		outer := loop().(model.EmitFor)
+		k, v = "", "u"
+		if rapid.Bool().Draw(g.t, "twovars2") {
+			k = "j"
+		}
+		outer.For.Body = append(outer.For.Body, g.text(), loop(), g.text())
+		return []model.Node{g.text(), outer, g.text()}
+	}
+	return []model.Node{g.text(), loop(), g.text()}
 }
 
 // ---- fixed bodies for the exhaustive sweep ---------------------------------------------
 
-func fixedBodies(ik iterKind) [][]model.Node {
+func fixedBodies(ik iterKind, n int) [][]model.Node {
 	T := func(s string) model.Node { return model.Text{S: s} }
-	v := model.Emit{X: model.Var{Name: "v"}}
-	k := model.Emit{X: model.Var{Name: "k"}}
-	var second model.Expr = model.Lit{V: 20}
-	if ik.elem == "string" {
-		second = model.Lit{V: "s1"}
+	var v model.Node = model.Emit{X: model.Var{Name: "v"}}
+	if !ik.readable() {
+		v = T("e")
 	}
-	is2 := model.Bin{Op: "==", L: model.Var{Name: "v"}, R: second}
+	var k model.Node = model.Emit{X: model.Var{Name: "k"}}
+	if ik.key == "opaque" {
+		k = T("key")
+	}
+	// conditions true at the first, the second and the last element: on the value where the bodies may read it
+	// (for the kinds holding zeros "first" then means every even position), on the key otherwise
+	at := func(idx int) model.Expr {
+		if ik.elem == "int" || ik.elem == "string" {
+			return model.Bin{Op: "==", L: model.Var{Name: "v"}, R: elemLit(ik, idx)}
+		}
+		kv, _ := keyLit(ik, idx)
+		return model.Bin{Op: "==", L: model.Var{Name: "k"}, R: kv}
+	}
+	is1, is2, isLast := at(0), at(1), at(n-1)
+	if n == 0 {
+		isLast = at(0)
+	}
 	brk, cnt := model.Code{S: model.BreakS{}}, model.Code{S: model.ContinueS{}}
 	sif := func(c model.Expr, n model.Node) model.Node {
 		return model.Code{S: model.IfS{If: &model.If{Cond: c, Then: []model.Node{n}}}}
@@ -483,6 +1066,10 @@ func fixedBodies(ik iterKind) [][]model.Node {
 	inner := func(ns ...model.Node) model.Node {
 		return model.EmitFor{For: &model.For{Val: "w", Iter: model.Var{Name: "ys"}, Body: ns}}
 	}
+	over := func(it model.Expr, ns ...model.Node) model.Node {
+		return model.EmitFor{For: &model.For{Val: "w", Iter: it, Body: ns}}
+	}
+	w := model.Emit{X: model.Var{Name: "w"}}
 	fnlit := model.Code{S: model.LetS{Name: "f", X: model.FnLit{Body: []model.Node{T("F")}}}}
 	if ik.hasNil {
 		isNil := model.Bin{Op: "==", L: model.Var{Name: "v"}, R: model.Lit{V: nil}}
@@ -500,7 +1087,7 @@ func fixedBodies(ik iterKind) [][]model.Node {
 			{inner(show), T("|"), show, T(",")},
 		}
 	}
-	return [][]model.Node{
+	out := [][]model.Node{
 		{},
 		{T("a")},
 		{k, T(":"), v, T(",")},
@@ -513,43 +1100,194 @@ func fixedBodies(ik iterKind) [][]model.Node {
 		{T("a"), eif(is2, T("x"), v, brk, T("dead")), T("b")},
 		{T("a"), brk, T("dead")},
 		{T("a"), cnt, T("dead")},
-		{inner(T("i")), sif(is2, brk), T("b")},                                      // control statement AFTER a nested loop
-		{sif(is2, cnt), inner(T("i"), model.Emit{X: model.Var{Name: "w"}}), T("b")}, // nested loop after a control statement
-		{inner(T("i"), sif(model.Lit{V: true}, brk), T("dead")), T("b")},            // break in the inner loop only
+		{inner(T("i")), sif(is2, brk), T("b")},                           // control statement AFTER a nested loop
+		{sif(is2, cnt), inner(T("i"), w), T("b")},                        // nested loop after a control statement
+		{inner(T("i"), sif(model.Lit{V: true}, brk), T("dead")), T("b")}, // break in the inner loop only
 		{inner(T("i"), sif(model.Lit{V: true}, cnt), T("dead")), sif(is2, brk), T("b")},
 		{fnlit, sif(is2, brk), model.Emit{X: model.Call{Fn: "f"}}},       // control statement after a function literal
 		{eif(model.Lit{V: true}, eif(is2, T("x"), brk), T("y")), T("b")}, // break two ifs deep
 		{eif(model.Lit{V: true}, sif(is2, cnt), T("y")), T("b")},
 		{T("a"), model.EmitIf{If: &model.If{Cond: is2, Then: []model.Node{T("x")}, HasElse: true, Else: []model.Node{T("e"), cnt}}}, T("b")},
-		{model.Code{S: model.LetS{Name: "t", X: model.Var{Name: "v"}}}, model.Emit{X: model.Var{Name: "t"}}, sif(is2, brk)},
+		{model.Code{S: model.LetS{Name: "t", X: model.Lit{V: 3}}}, model.Emit{X: model.Var{Name: "t"}}, sif(is2, brk)},
 		// an inner loop that reuses the outer loop's variable names; the outer values are read again afterwards
-		{v, model.EmitFor{For: &model.For{Val: "v", Iter: model.Var{Name: "ys"}, Body: []model.Node{T("i"), v}}}, T("|"), v, sif(is2, brk), T(",")},
+		{v, model.EmitFor{For: &model.For{Val: "v", Iter: model.Var{Name: "ys"}, Body: []model.Node{T("i"), model.Emit{X: model.Var{Name: "v"}}}}}, T("|"), v, sif(is2, brk), T(",")},
 		{k, model.EmitFor{For: &model.For{Key: "k", Val: "v", Iter: model.Var{Name: "ys"}, Body: []model.Node{k}}}, T("|"), k, T(":"), v, sif(is2, cnt), T(",")},
 		{eif(model.Lit{V: true}, model.EmitFor{For: &model.For{Val: "v", Iter: model.Var{Name: "ys"}, Body: []model.Node{T("i")}}}), v, T(",")},
+
+		// ---- widening round ----
+		// control statements in else-if branches, emitting and silent
+		{T("a"), model.EmitIf{If: &model.If{Cond: is1, Then: []model.Node{T("f")}, ElseIfs: []model.ElseIf{{Cond: is2, Then: []model.Node{T("x"), brk}}}, HasElse: true, Else: []model.Node{T("e")}}}, T("b")},
+		{T("a"), model.EmitIf{If: &model.If{Cond: is1, Then: []model.Node{T("f")}, ElseIfs: []model.ElseIf{{Cond: is2, Then: []model.Node{T("x"), cnt, T("dead")}}}}}, T("b")},
+		{T("a"), model.EmitIf{If: &model.If{Cond: model.Lit{V: false}, Then: []model.Node{T("f")}, ElseIfs: []model.ElseIf{{Cond: model.Lit{V: false}, Then: []model.Node{T("g")}}, {Cond: isLast, Then: []model.Node{T("x"), cnt}}}, HasElse: true, Else: []model.Node{T("e")}}}, T("b")},
+		{T("a"), model.Code{S: model.IfS{If: &model.If{Cond: is1, Then: []model.Node{cnt}, ElseIfs: []model.ElseIf{{Cond: is2, Then: []model.Node{brk}}}}}}, T("b")},
+		{T("a"), model.Code{S: model.IfS{If: &model.If{Cond: is2, Then: []model.Node{cnt}, ElseIfs: []model.ElseIf{{Cond: isLast, Then: []model.Node{cnt}}}, HasElse: true, Else: []model.Node{brk}}}}, T("b")},
+		// control statements at the first and at the last element
+		{T("a"), sif(is1, brk), T("b")},
+		{T("a"), sif(is1, cnt), T("b")},
+		{T("a"), sif(isLast, brk), T("b")},
+		{T("a"), sif(isLast, cnt), T("b")},
+		{sif(is1, cnt), T("a"), sif(isLast, brk), T("b")},
+		// an inner loop that breaks or not depending on the OUTER element: the same loop runs plain, then broken, then plain
+		{inner(T("i"), sif(is2, brk), T("j")), T(",")},
+		{inner(T("i"), sif(is2, cnt), T("j")), T(","), sif(isLast, brk), T("b")},
+		{inner(T("i"), model.EmitIf{If: &model.If{Cond: is1, Then: []model.Node{T("f")}, ElseIfs: []model.ElseIf{{Cond: is2, Then: []model.Node{T("x"), brk}}}}}, T("j")), T(",")},
+		// an inner loop over a helper call (its body is the call's trailing block), then a control statement of the outer loop
+		{over(model.Call{Fn: "until", Args: []model.Expr{model.Lit{V: 2}}}, T("i"), w), sif(is2, brk), T("b")},
+		{over(model.Call{Fn: "range", Args: []model.Expr{model.Lit{V: 1}, model.Lit{V: 2}}}, sif(model.Lit{V: true}, cnt), T("dead")), sif(is2, cnt), T("b")},
+		// a function holding a loop, defined in the body and called twice; then a control statement
+		{model.Code{S: model.LetS{Name: "f", X: model.FnLit{Params: []string{"a"}, Body: []model.Node{T("("), over(model.Var{Name: "a"}, w, sif(model.Bin{Op: "==", L: model.Var{Name: "w"}, R: model.Lit{V: 20}}, brk), T(".")), T(")")}}}},
+			model.Emit{X: model.Call{Fn: "f", Args: []model.Expr{intLits(3)}}}, model.Emit{X: model.Call{Fn: "f", Args: []model.Expr{intLits(1)}}}, sif(is2, brk), T(",")},
+		// the body rebinds the loop variables
+		{v, model.Code{S: model.LetS{Name: "v", X: model.Lit{V: 7}}}, model.Emit{X: model.Var{Name: "v"}}, sif(isLast, brk), T(",")},
+		{k, model.Code{S: model.LetS{Name: "k", X: model.Lit{V: 7}}}, k, T(",")},
 	}
+	if ik.key == "int" && !ik.isMap {
+		// what the inner loop ranges over depends on the outer key: 0, 1, 2, ... elements; then a control statement
+		out = append(out, []model.Node{over(model.Call{Fn: "until", Args: []model.Expr{model.Var{Name: "k"}}}, w, sif(model.Bin{Op: "==", L: model.Var{Name: "w"}, R: model.Lit{V: 1}}, brk), T(".")), T("|"), sif(isLast, brk), T(",")})
+	}
+	if ik.elem == "int" {
+		// an array literal that mentions the outer variable
+		out = append(out, []model.Node{over(model.Arr{Els: []model.Expr{model.Var{Name: "v"}, model.Lit{V: 5}}}, w, T(".")), T(",")})
+	}
+	if ik.elem == "slice" || ik.elem == "mixed" {
+		// the inner loop ranges over the outer element: another length, another kind every time
+		out = append(out,
+			[]model.Node{k, T(":"), over(model.Var{Name: "v"}, w, T(".")), T(",")},
+			[]model.Node{over(model.Var{Name: "v"}, w, sif(model.Bin{Op: "==", L: model.Var{Name: "w"}, R: model.Lit{V: 20}}, brk), T(".")), sif(is2, cnt), T(",")},
+			[]model.Node{model.EmitFor{For: &model.For{Key: "j", Val: "w", Iter: model.Var{Name: "v"}, Body: []model.Node{model.Emit{X: model.Var{Name: "j"}}, T("="), w, sif(model.Bin{Op: "==", L: model.Var{Name: "w"}, R: model.Lit{V: 10}}, cnt), T(".")}}}, T(",")},
+			[]model.Node{model.EmitFor{For: &model.For{Val: "v", Iter: model.Var{Name: "v"}, Body: []model.Node{model.Emit{X: model.Var{Name: "v"}}}}}, T("|"), over(model.Var{Name: "v"}, T("i")), T(",")},
+		)
+	}
+	return out
 }
 
-const rule = "iterables: []int, []string, []interface{}, [N]int, *[]int, *[N]string, array literal, map[string]int, map[int]string, map[string]interface{}, custom Iterator, range/between/until, []interface{} / map[string]interface{} / array literals holding nil elements (the loop variable is then bound to nil and still hides the top-level variables v, k, w that every case defines), literal nil, helper returning nil, and five non-iterables, each with 0..5 elements (thorough 0..6). (E) every iterable x length x 24 fixed bodies (break/continue at the start, middle and end of the body, inside a silent if, inside an emitting if after text, two ifs deep, in an else branch, unconditional with dead code after, in an inner loop only, AFTER a nested loop, after a function literal; inner loops that REUSE the outer loop's variable names with the outer values read again afterwards) x one-/two-variable form. (R) random bodies from the same grammar nested to depth 2. Oracle: the reference interpreter (body once per element in index order, key = index / map key / running count, continue/break keep what the iteration produced, nil renders nothing, non-iterable is an error). For maps each iteration starts with a key marker; the visiting order is read off the output, checked duplicate-free over the key set, and the model is run in that order. Non-trivial = the body has a control statement or a nested loop, or the iterable is a map / pointer / iterator / nil / non-iterable; distinct by (iterable, length, template)."
+// ---- deep nesting ----------------------------------------------------------------------
+
+var deepShapes = func() []func(d int) []model.Node {
+	T := func(s string) model.Node { return model.Text{S: s} }
+	is2 := model.Bin{Op: "==", L: model.Var{Name: "v"}, R: model.Lit{V: 20}}
+	nest := func(d int, bottom []model.Node, wrap func(inner []model.Node) model.Node) []model.Node {
+		for ; d > 0; d-- {
+			bottom = []model.Node{wrap(bottom)}
+		}
+		return bottom
+	}
+	inLoop := func(ns []model.Node) model.Node {
+		return model.EmitFor{For: &model.For{Val: "w", Iter: intLits(1), Body: ns}}
+	}
+	inIf := func(ns []model.Node) model.Node {
+		return model.EmitIf{If: &model.If{Cond: model.Lit{V: true}, Then: ns}}
+	}
+	inSilentIf := func(ns []model.Node) model.Node {
+		return model.Code{S: model.IfS{If: &model.If{Cond: model.Lit{V: true}, Then: ns}}}
+	}
+	inElse := func(ns []model.Node) model.Node {
+		return model.EmitIf{If: &model.If{Cond: model.Lit{V: false}, Then: []model.Node{T("no")}, ElseIfs: []model.ElseIf{{Cond: model.Lit{V: true}, Then: ns}}}}
+	}
+	brk, cnt := model.Code{S: model.BreakS{}}, model.Code{S: model.ContinueS{}}
+	sif := func(c model.Expr, n model.Node) model.Node {
+		return model.Code{S: model.IfS{If: &model.If{Cond: c, Then: []model.Node{n}}}}
+	}
+	ev := model.Emit{X: model.Var{Name: "v"}}
+	return []func(d int) []model.Node{
+		func(d int) []model.Node { return nest(d, []model.Node{T("Z"), ev}, inLoop) }, // d+1 loops
+		func(d int) []model.Node {
+			return nest(d, []model.Node{T("Z"), sif(model.Lit{V: true}, brk), T("dead")}, inLoop)
+		}, // break ends the innermost of d+1 loops only
+		func(d int) []model.Node { return nest(d, []model.Node{T("X"), ev, sif(is2, brk), T("Y")}, inIf) }, // break under d emitting ifs
+		func(d int) []model.Node { return nest(d, []model.Node{T("X"), sif(is2, cnt), T("Y")}, inElse) },   // continue under d else-if branches
+		func(d int) []model.Node {
+			return append([]model.Node{T("X")}, append(nest(d, []model.Node{sif(is2, brk)}, inSilentIf), T("Y"))...)
+		},
+		func(d int) []model.Node { // loops and ifs alternating
+			return nest(d/2, []model.Node{T("X"), sif(is2, cnt), T("Y")}, func(ns []model.Node) model.Node { return inIf([]model.Node{inLoop(ns)}) })
+		},
+	}
+}()
+
+func deepProg(shape, d int) []model.Node {
+	return []model.Node{model.Text{S: "<"}, model.EmitFor{For: &model.For{Val: "v", Iter: model.Var{Name: "xs"}, Body: deepShapes[shape-1](d)}}, model.Text{S: ">"}}
+}
+
+var usesK = regexp.MustCompile(`\bk\b`)
+
+const rule = "iterables (68 kinds): []int, []string, []interface{}, [N]int, *[]int, *[N]string, array literal, map[string]int, map[int]string, map[string]interface{}, custom Iterator, range/between/until, []interface{} / map[string]interface{} / array literals holding nil elements (the loop variable is then bound to nil and still hides the top-level variables v, k, w that every case defines), literal nil, helper returning nil, five non-iterables; and, since the widening round: slices, maps and iterators holding ZERO values (0, \"\", false), maps with bool and uint8 keys and with key 0, maps whose keys do not print (array, struct, pointer keys; interface{} keys 1, \"1\", 1.0, true, int64(1), [1]int{1}; float keys 0, 0.5, +Inf, -Inf, NaN, NaN - iterations are then told apart by their values), named slice and map types, *map and *[]interface{}, slices of typed nil pointers / structs / errors / bytes (bodies never read the element), slices whose elements are themselves iterable ([][]int of lengths 0..3; slice, map, Iterator, array and empty slice mixed) with inner loops ranging over the outer element, loop heads that name the iterable as a struct field, a field through a pointer, a method call, a pointer-method call, a map index, a slice index, a field of an indexed field, a Go function with and without arguments (the body is then the call's trailing block), a parenthesised variable, a hash literal, Iterators with a value receiver / behind a pointer / of kind func, nil slice, nil map, nil interface field, and chan, func, *struct, int64, uint8 as non-iterables; each with 0..5 elements (thorough 0..6), and 17, 64, 65, 130, 257 elements for six kinds. (E) every iterable x length x 45+ fixed bodies (break/continue at the start, middle and end of the body, at the first, second and LAST element, inside a silent if, inside an emitting if after text, two ifs deep, in an else and in ELSE-IF branches (emitting and silent), unconditional with dead code after, in an inner loop only, AFTER a nested loop, after a nested loop over a helper call, after a function literal, after a function holding a loop that was called twice; inner loops that REUSE the outer loop's variable names with the outer values read again afterwards; inner loops whose break depends on the OUTER element, whose iterable is until(k), [v, 5] or the outer element itself; bodies that rebind the loop variables with let) x one-/two-variable form x canonical / compact layout (silent blocks inside one tag: `<% if (c) {⏎break⏎} %>`) ; 5 spellings of the loop head; 6 other sets of names for the variables (keywords as prefixes, capitalised keywords, keywords before a dash, underscores and digits). (T) one parsed template executed two or three times with xs bound to iterables of other kinds and lengths (also a non-iterable, then an iterable). (R) random bodies from the same grammar nested to depth 2, conditions of inner loops also on outer variables, programs with two loops in sequence, a function holding the loop called with xs, ys, xs, the loop in an else-if branch, the same collection ranged over by a loop and by a loop inside it. Oracle: the reference interpreter (body once per element in index order, key = index / map key / running count, continue/break keep what the iteration produced, nil renders nothing, non-iterable is an error). For maps each iteration starts with a key marker; the visiting order is read off the output, checked duplicate-free over the key set, and the model is run in that order. Non-trivial = the body has a control statement or a nested loop, or the iterable is a map / pointer / iterator / nil / non-iterable / one of the widened kinds, or the template is executed more than once; distinct by (iterable, length, template, executions)."
 
 func setup(t *testing.T) *vk.Run {
 	r := vk.Start(t, "C08", rule,
 		"a silent <% if %> inside a loop body carries control statements only (text inside a silent if that then breaks is claimed by neither C02 nor C08)",
-		"return inside loops and typed-nil iterables are not used (the statement does not cover them)")
+		"return inside loops and typed-nil POINTER iterables are not used (the statement does not cover them); nil slices and nil maps are",
+		"break/continue inside a helper block or a function literal inside a loop body are not used (whether such a block is still 'inside the loop body' is not fixed by the statement)")
 	r.Replayer("loop", func(raw json.RawMessage) *vk.Fail {
 		var c Case
 		if f := vk.Decode(raw, &c); f != nil {
 			return f
 		}
-		prog, err := model.Decode(c.Prog)
-		if err != nil || c.Kind < 0 || c.Kind >= len(iterKinds) || c.N < 0 || c.N > 50 {
+		var prog []model.Node
+		var err error
+		if c.Shape > 0 {
+			if c.Shape > len(deepShapes) || c.Depth < 0 || c.Depth > 5000 {
+				return &vk.Fail{Kind: "decode", Msg: "bad case: shape or depth out of range"}
+			}
+			prog = deepProg(c.Shape, c.Depth)
+		} else {
+			prog, err = model.Decode(c.Prog)
+		}
+		bad := func(k, n int) bool { return k < 0 || k >= len(iterKinds) || n < 0 || n > 1000 }
+		for _, kn := range c.Then {
+			if bad(kn.Kind, kn.N) {
+				err = fmt.Errorf("bad execution %v", kn)
+			}
+		}
+		if err != nil || bad(c.Kind, c.N) || c.Names < 0 || c.Names > len(nameSets) {
 			return &vk.Fail{Kind: "decode", Msg: fmt.Sprint("bad case: ", err)}
 		}
-		return run(r, c.Kind, c.N, prog)
+		return run(r, c, prog)
 	})
 	return r
 }
 
 func TestReplay(t *testing.T) { setup(t).ReplayEnv() }
+
+// markerOf starts every iteration over a map with what tells it apart: the key, or the value where keys do not print.
+func markerOf(ik iterKind) []model.Node {
+	name := "k"
+	if ik.byValue {
+		name = "v"
+	}
+	return []model.Node{model.Text{S: "{{"}, model.Emit{X: model.Var{Name: name}}, model.Text{S: "}}"}}
+}
+
+// wholeProg wraps a fixed body into the loop over the iterable of the kind.
+func wholeProg(ik iterKind, n int, two bool, body []model.Node) []model.Node {
+	key := ""
+	if two {
+		key = "k"
+	}
+	if ik.isMap {
+		body = append(markerOf(ik), body...)
+	}
+	var iter model.Expr = model.Var{Name: "xs"}
+	if ik.expr != nil {
+		iter = ik.expr(n)
+	}
+	return []model.Node{model.Text{S: "<"}, model.EmitFor{For: &model.For{Key: key, Val: "v", Iter: iter, Body: body}}, model.Text{S: ">"}}
+}
+
+// lengths of a kind in the sweep
+func lengths(ik iterKind, maxN int) []int {
+	var out []int
+	for n := 0; n <= maxN; n++ {
+		if (ik.bad || ik.empty) && n > 0 || ik.maxN > 0 && n > ik.maxN || ik.name == "hash literal" && n > 1 {
+			continue
+		}
+		out = append(out, n)
+	}
+	return out
+}
+
+// thenable kinds can follow one another under one parsed template: the iterable is the plain variable xs
+func thenable(ik iterKind) bool { return ik.build != nil && ik.spell == "" && !ik.byValue }
 
 func TestProp(t *testing.T) {
 	r := setup(t)
@@ -558,45 +1296,164 @@ func TestProp(t *testing.T) {
 
 	maxN := r.Pick(5, 6)
 	var cells int64
-	for ki, ik := range iterKinds {
-		for n := 0; n <= maxN; n++ {
-			if (ik.bad || ik.empty) && n > 0 {
-				continue
-			}
-			for bi, body := range fixedBodies(ik) {
-				for _, two := range []bool{false, true} {
-					uses := strings.Contains(model.Printer{}.Nodes(body), "<%= k %>")
-					if !two && (uses || ik.isMap) {
+	sweepNames := 0
+	sweep := func(ki, n int, heads []int) {
+		ik := iterKinds[ki]
+		for _, body := range fixedBodies(ik, n) {
+			for _, two := range []bool{false, true} {
+				if !two && (ik.isMap || usesK.MatchString(model.Printer{}.Nodes(body))) {
+					continue
+				}
+				prog := wholeProg(ik, n, two, body)
+				for _, compact := range []bool{false, true} {
+					if compact && (model.Printer{Compact: true}).Nodes(prog) == (model.Printer{}).Nodes(prog) {
 						continue
 					}
-					b := body
-					key := ""
-					if two {
-						key = "k"
+					for _, head := range heads {
+						if r.Mine(cells) {
+							r.Check(run(r, Case{Kind: ki, N: n, Compact: compact, Head: head, Names: sweepNames}, prog))
+						}
+						cells++
 					}
-					if ik.isMap {
-						b = append([]model.Node{model.Text{S: "{{"}, model.Emit{X: model.Var{Name: "k"}}, model.Text{S: "}}"}}, body...)
-					}
-					var iter model.Expr = model.Var{Name: "xs"}
-					if ik.expr != nil {
-						iter = ik.expr(n)
-					}
-					prog := []model.Node{model.Text{S: "<"}, model.EmitFor{For: &model.For{Key: key, Val: "v", Iter: iter, Body: b}}, model.Text{S: ">"}}
-					if r.Mine(cells) {
-						r.Check(run(r, ki, n, prog))
-					}
-					cells++
-					_ = bi
 				}
 			}
 		}
 	}
-	r.Subspace(fmt.Sprintf("%d iterable kinds x lengths 0..%d x 24 fixed bodies (9 nil-tolerant ones for collections holding nil) x one/two loop variables", len(iterKinds), maxN), cells, true)
+	for ki, ik := range iterKinds {
+		for _, n := range lengths(ik, maxN) {
+			sweep(ki, n, []int{0})
+		}
+	}
+	r.Subspace(fmt.Sprintf("%d iterable kinds x lengths 0..%d x 45-49 fixed bodies (9 nil-tolerant ones for collections holding nil) x one/two loop variables x canonical/compact layout", len(iterKinds), maxN), cells, true)
 
-	r.Rapid("bodies", r.Pick(6000, 80000), func(t *rapid.T) *vk.Fail {
+	// long collections (growth of whatever holds the iterations' output, chunking) and the other spellings of the head
+	cells = 0
+	for _, ki := range []int{0, 3, 7, 14, 15, 17} {
+		for _, n := range []int{17, 64, 65, 130, 257} {
+			sweep(ki, n, []int{0})
+		}
+	}
+	for _, ki := range []int{0, 7, 14, 15, 48} {
+		sweep(ki, 3, []int{1, 2, 3, 4})
+	}
+	for _, ki := range []int{0, 7, 15, 41, 48} {
+		for names := 1; names <= len(nameSets); names++ {
+			sweepNames = names
+			sweep(ki, 3, []int{0})
+		}
+		sweepNames = 0
+	}
+	r.Subspace("6 iterable kinds x lengths {17, 64, 65, 130, 257} x fixed bodies; 5 kinds x length 3 x fixed bodies x 4 further spellings of the loop head; 5 kinds x length 3 x fixed bodies x 6 other sets of variable names", cells, true)
+
+	// (T) one parsed template, several executions: every ordered pair of (kind, length in {0, 1, 3}) of the kinds
+	// that bind xs directly and agree on what the bodies may compare, x 6 bodies
+	cells = 0
+	var tk []int
+	for ki, ik := range iterKinds {
+		if thenable(ik) && !ik.hasNil {
+			tk = append(tk, ki)
+		}
+	}
+	pairBodies := []int{2, 3, 8, 12, 24, 34}
+	for _, a := range tk {
+		for _, b := range tk {
+			ia, ib := iterKinds[a], iterKinds[b]
+			if a == b || !(ia.bad || ib.bad || ia.empty || ib.empty || ia.elem == ib.elem && ia.key == ib.key) {
+				continue
+			}
+			for _, na := range []int{0, 1, 3} {
+				for _, nb := range []int{0, 1, 3} {
+					if (ia.bad || ia.empty) && na > 0 || (ib.bad || ib.empty) && nb > 0 {
+						continue
+					}
+					lead := ia
+					if ia.bad || ia.empty {
+						lead = ib
+					}
+					for _, bi := range pairBodies {
+						if r.Mine(cells) && (r.Thorough() || cells%int64(r.Pick(7, 1)) == 0) {
+							prog := wholeProg(iterKind{isMap: ia.isMap || ib.isMap}, 0, true, fixedBodies(lead, 3)[bi])
+							r.Check(run(r, Case{Kind: a, N: na, Then: []KN{{b, nb}, {a, na}}}, prog))
+						}
+						cells++
+					}
+				}
+			}
+		}
+	}
+	r.Subspace(fmt.Sprintf("one parsed template executed with A, B, A: ordered pairs of %d kinds binding xs x lengths {0,1,3}^2 x 6 bodies (quick: every 7th cell)", len(tk)), cells, r.Thorough())
+
+	// (D) nesting depth: d loops inside one another, and a control statement under d ifs. Only the first failing
+	// depth of a shape is reported.
+	cells = 0
+	for si := range deepShapes {
+		failed := false
+		for _, d := range []int{0, 1, 2, 3, 8, 50, 250, 332, 333, 334, 499, 500, 501, 998, 999, 1000, 1001, 1500} {
+			if r.Mine(cells) && !failed {
+				failed = !r.Check(run(r, Case{Kind: 0, N: 3, Shape: si + 1, Depth: d}, deepProg(si+1, d)))
+			}
+			cells++
+		}
+	}
+	r.Subspace("6 shapes (nested loops; break in the innermost of nested loops; break under nested emitting ifs / else-if branches / silent ifs; loops and ifs alternating) x 18 nesting depths 0..1500", cells, true)
+
+	// (C) Render and Exec take any hctx.Context, not only a *plush.Context. Only the first failure is reported.
+	cells = 0
+	failed := false
+	for _, ki := range []int{0, 3, 7, 14, 15, 20, 41, 48} {
+		for _, n := range []int{0, 2} {
+			for _, bi := range []int{2, 3, 12} {
+				if r.Mine(cells) && !failed {
+					ik := iterKinds[ki]
+					failed = !r.Check(run(r, Case{Kind: ki, N: n, Ctx: "wrapped"}, wholeProg(ik, n, true, fixedBodies(ik, n)[bi])))
+				}
+				cells++
+			}
+		}
+	}
+	r.Subspace("8 iterable kinds x lengths {0,2} x 3 bodies rendered with a context that wraps a *plush.Context", cells, true)
+
+	r.Rapid("bodies", r.Pick(9000, 90000), func(t *rapid.T) *vk.Fail {
 		kind := rapid.IntRange(0, len(iterKinds)-1).Draw(t, "iterable")
-		n := rapid.IntRange(0, 6).Draw(t, "n")
+		ns := lengths(iterKinds[kind], 6)
+		n := ns[rapid.IntRange(0, len(ns)-1).Draw(t, "n")]
 		g := &bodyGen{t: t}
-		return run(r, kind, n, g.program(kind, n))
+		c := Case{Kind: kind, N: n, Compact: rapid.IntRange(0, 2).Draw(t, "compact") == 0}
+		if rapid.IntRange(0, 7).Draw(t, "head") == 0 {
+			c.Head = rapid.IntRange(1, 4).Draw(t, "spelling")
+		}
+		if rapid.IntRange(0, 5).Draw(t, "rename") == 0 {
+			c.Names = rapid.IntRange(1, len(nameSets)).Draw(t, "names")
+		}
+		return run(r, c, g.program(kind, n))
+	})
+
+	r.Rapid("executions", r.Pick(3000, 40000), func(t *rapid.T) *vk.Fail {
+		var tk []int
+		for ki, ik := range iterKinds {
+			if thenable(ik) {
+				tk = append(tk, ki)
+			}
+		}
+		kind := tk[rapid.IntRange(0, len(tk)-1).Draw(t, "iterable")]
+		ia := iterKinds[kind]
+		pick := func() KN {
+			var same []int
+			for _, ki := range tk {
+				if ib := iterKinds[ki]; ib.bad || ib.empty || ib.elem == ia.elem && ib.key == ia.key && ib.isMap == ia.isMap {
+					same = append(same, ki)
+				}
+			}
+			ki := same[rapid.IntRange(0, len(same)-1).Draw(t, "next")]
+			ns := lengths(iterKinds[ki], 6)
+			return KN{ki, ns[rapid.IntRange(0, len(ns)-1).Draw(t, "next_n")]}
+		}
+		ns := lengths(ia, 6)
+		c := Case{Kind: kind, N: ns[rapid.IntRange(0, len(ns)-1).Draw(t, "n")], Compact: rapid.IntRange(0, 2).Draw(t, "compact") == 0}
+		for i := rapid.IntRange(1, 2).Draw(t, "executions"); i > 0; i-- {
+			c.Then = append(c.Then, pick())
+		}
+		g := &bodyGen{t: t}
+		return run(r, c, g.program(kind, c.N))
 	})
 }
